@@ -17,6 +17,7 @@ import (
 	"sort"
 	"strconv"
 	"strings"
+	"sync/atomic"
 	"time"
 
 	sdkmath "cosmossdk.io/math"
@@ -90,6 +91,12 @@ type Out struct {
 	Mon    []MonFail
 	Sample []string
 	nOps   int64
+	// watchdog: when the implementation does not return from one operation (a seeded or real non-termination), the run
+	// is ended with a record of the operation instead of blocking the check for hours
+	lastOp   atomic.Int64 // unix nanoseconds of the last operation line
+	lastLine atomic.Value // string
+	lastHist atomic.Int64
+	closed   atomic.Bool
 }
 
 // MonFail is a property monitor failure observed on the implementation.
@@ -108,7 +115,26 @@ func NewOut(dir string) *Out {
 	must(err)
 	fi, err := os.Create(filepath.Join(dir, "impl.txt"))
 	must(err)
-	return &Out{dir: dir, fo: fo, fi: fi, ops: bufio.NewWriterSize(fo, 1<<20), impl: bufio.NewWriterSize(fi, 1<<20), Stats: map[string]int64{}}
+	o := &Out{dir: dir, fo: fo, fi: fi, ops: bufio.NewWriterSize(fo, 1<<20), impl: bufio.NewWriterSize(fi, 1<<20), Stats: map[string]int64{}}
+	o.lastOp.Store(time.Now().UnixNano())
+	o.lastLine.Store("")
+	limit := time.Duration(envInt("VERIF_OP_TIMEOUT", 300)) * time.Second
+	go func() {
+		for !o.closed.Load() {
+			time.Sleep(2 * time.Second)
+			if idle := time.Since(time.Unix(0, o.lastOp.Load())); idle > limit && !o.closed.Load() {
+				// the main goroutine is stuck inside the implementation and writes nothing: flushing from here is safe
+				line, _ := o.lastLine.Load().(string)
+				b, _ := json.MarshalIndent(map[string]interface{}{"history": o.lastHist.Load(), "op": o.nOps, "op_line": line,
+					"seconds": int(idle.Seconds())}, "", " ")
+				_ = os.WriteFile(filepath.Join(o.dir, "hang.json"), b, 0o644)
+				o.Close(map[string]interface{}{"hang": true})
+				fmt.Fprintf(os.Stderr, "HANG: the implementation did not return from operation %d (%s) of history %d within %s\n", o.nOps, line, o.lastHist.Load(), limit)
+				os.Exit(3)
+			}
+		}
+	}()
+	return o
 }
 
 // Op writes one operation line for the model.
@@ -117,6 +143,13 @@ func (o *Out) Op(format string, a ...interface{}) {
 	o.ops.WriteString(s)
 	o.ops.WriteByte('\n')
 	o.nOps++
+	o.lastOp.Store(time.Now().UnixNano())
+	o.lastLine.Store(s)
+	if strings.HasPrefix(s, "N ") {
+		if h, err := strconv.ParseInt(strings.TrimPrefix(s, "N "), 10, 64); err == nil {
+			o.lastHist.Store(h)
+		}
+	}
 	if len(o.Sample) < 12 {
 		o.Sample = append(o.Sample, s)
 	}
@@ -135,6 +168,7 @@ func (o *Out) Fail(m MonFail) {
 	o.Stats["monfail."+m.Property+"."+m.Monitor]++
 }
 func (o *Out) Close(extra map[string]interface{}) {
+	o.closed.Store(true)
 	o.ops.Flush()
 	o.impl.Flush()
 	o.fo.Close()
